@@ -695,6 +695,17 @@ def verify_case(T, case, timeout_ms=None, want=None, exclude=None):
         ob.status = "undecided"
         ob.detail = "contract not applicable to this code: %s" % (e,)
         return [ob]
+    except Exception as e:  # noqa: BLE001
+        # an accident inside contract / model code while the obligations were being built (e.g. a clause that
+        # expects the run's median step to be an integer number of nanoseconds): a limit of the contract on
+        # this code - undecided, the bounded stand-in takes over.  Anything else is a checker failure.
+        acc = C.internal_error(e)
+        if acc is None:
+            raise
+        ob = ObResult(case.name + ":explore", "error")
+        ob.status = "undecided"
+        ob.detail = "contract not applicable to this code (accident while building the obligations): %s" % acc
+        return [ob]
 
 
 def _verify_case(T, case, timeout_ms=None, want=None, exclude=None):
